@@ -792,6 +792,44 @@ func c12SchedJobs() []sjob {
 	return []sjob{{"two connections send accounting records concurrently", body(false)}}
 }
 
+// ---------------- C03 (obfuscation of concurrent connections) ----------------
+
+type c03SchedHandler struct{ reply []byte }
+
+func (h c03SchedHandler) Handle(resp tq.Response, req tq.Request) { resp.Reply(rawBody{h.reply}) }
+
+func c03SchedJobs() []sjob {
+	key := []byte("c03-concurrent-key")
+	return []sjob{{"two connections exchange obfuscated packets concurrently", func(x *sx) {
+		clearReply := replyShaped(40)
+		w := newSWorldL(key, c03SchedHandler{clearReply})
+		w.serve()
+		var r1, r2 [][]byte
+		var wg vsyncrt.WaitGroup
+		wg.Add(2)
+		h1 := ref.Header{Version: 0xc0, Type: 1, Seq: 1, Session: 0x03030301}
+		h2 := ref.Header{Version: 0xc1, Type: 1, Seq: 3, Session: 0x0303ff02}
+		c1 := w.W.NewConn(1, srvx.Addr4(10, 0, 0, 1, 1301))
+		c2 := w.W.NewConn(2, srvx.Addr4(10, 0, 0, 2, 1302))
+		vsyncrt.Go(func() { sclient(w, c1, [][]byte{ref.Packet(h1, key, replyShaped(33))}, &r1, true); wg.Done() })
+		vsyncrt.Go(func() { sclient(w, c2, [][]byte{ref.Packet(h2, key, replyShaped(47))}, &r2, true); wg.Done() })
+		wg.Wait()
+		w.shutdown()
+		for i, pr := range []struct {
+			h ref.Header
+			r [][]byte
+		}{{h1, r1}, {h2, r2}} {
+			rh := pr.h
+			rh.Seq++
+			want := ref.Packet(rh, key, clearReply)
+			if len(pr.r) != 1 || string(pr.r[0]) != string(want) {
+				x.fail("C03/concurrent-wire", fmt.Sprintf("connection %d: the reply on the wire is not header || cleartext XOR the RFC pad while another connection is obfuscating concurrently", i+1))
+			}
+		}
+		x.obs = "ok"
+	}}}
+}
+
 // ---------------- C13 (scope order under whatever concurrency the loader uses) ----------------
 
 func c13SchedJobs() []sjob {
@@ -858,6 +896,8 @@ func jobsFor(id string, quick bool) []sjob {
 		return c12SchedJobs()
 	case "C13":
 		return c13SchedJobs()
+	case "C03":
+		return c03SchedJobs()
 	}
 	return nil
 }
